@@ -20,6 +20,8 @@ type Graph struct {
 
 	nodeAt map[ast.Node]nodeLoc
 	live   map[*cfg.Block]bool
+
+	factsCache *Solution[Facts]
 }
 
 type nodeLoc struct {
@@ -78,8 +80,15 @@ func (p *Program) GraphOf(fi *FuncInfo) *Graph {
 
 // GraphOfLit builds the graph of a function literal found inside fi.
 func (p *Program) GraphOfLit(fi *FuncInfo, lit *ast.FuncLit) *Graph {
-	return p.newGraph(lit, lit.Body, fi.Pkg.TypesInfo, fi.Name+"$lit@"+p.Pos(lit))
+	if g := litGraphs[lit]; g != nil {
+		return g
+	}
+	g := p.newGraph(lit, lit.Body, fi.Pkg.TypesInfo, fi.Name+"$lit@"+p.Pos(lit))
+	litGraphs[lit] = g
+	return g
 }
+
+var litGraphs = map[*ast.FuncLit]*Graph{}
 
 func (p *Program) newGraph(fn ast.Node, body *ast.BlockStmt, info *types.Info, name string) *Graph {
 	g := &Graph{P: p, Info: info, Fn: fn, Body: body, Name: name, nodeAt: map[ast.Node]nodeLoc{}, live: map[*cfg.Block]bool{}}
@@ -249,8 +258,9 @@ func (g *Graph) isHoistedComm(n ast.Node) bool {
 
 // Lattice describes a forward dataflow problem.
 type Lattice[S any] struct {
-	Init S
-	Join func(a, b S) S
+	Init  S
+	Widen func(a, b S) S // optional: used instead of Join once a block was revisited often
+	Join  func(a, b S) S
 	Eq   func(a, b S) bool
 	Step func(s S, st Step) S // must not mutate its argument
 }
@@ -273,6 +283,7 @@ func Solve[S any](g *Graph, l Lattice[S]) *Solution[S] {
 	sol.has[entry] = true
 	work := []*cfg.Block{entry}
 	inWork := map[*cfg.Block]bool{entry: true}
+	visits := map[*cfg.Block]int{}
 	iter := 0
 	for len(work) > 0 {
 		iter++
@@ -292,7 +303,12 @@ func Solve[S any](g *Graph, l Lattice[S]) *Solution[S] {
 				sol.in[s] = st
 				sol.has[s] = true
 			} else {
-				j := l.Join(sol.in[s], st)
+				visits[s]++
+				join := l.Join
+				if l.Widen != nil && visits[s] > 3 {
+					join = l.Widen
+				}
+				j := join(sol.in[s], st)
 				if l.Eq(j, sol.in[s]) {
 					continue
 				}
